@@ -17,6 +17,7 @@ RULE = (
     "rescale_per_node is evaluated and every entry of the incidence, adjacency, degree, intersection-profile, "
     "clique-motif, adjacency-tensor, order-d / multi-order / normalised Laplacian is compared, through the returned "
     "index maps, with a brute-force value computed from members(); symmetry, zero diagonal, zero row sums and PSD "
+    "Every case is evaluated twice around an in-place edit that keeps the node and edge counts; edges have up to 6 nodes (adjacency tensor up to order 5); one fixed network with two 130-node edges is added to every run. "
     "(eigvalsh >= -1e-9) are checked, and sparse == dense for every combination. non-trivial = two edges of different "
     "sizes share a node and the node labels are not 0..n-1"
 )
@@ -30,7 +31,7 @@ ASSUMPTIONS = [
 
 @st.composite
 def cases(draw, tier):
-    spec = draw(nets.net_spec(wide_labels="mixed", cls="H", max_edges=7, max_size=4, allow_empty=False, with_attrs=False))
+    spec = draw(nets.net_spec(wide_labels="mixed", cls="H", max_edges=7, max_size=draw(st.sampled_from([4, 4, 6])), allow_empty=False, with_attrs=False))
     m = len(spec["edges"])
     ws = draw(st.lists(st.sampled_from([0, 0.5, 1, 1, 2, 3, 10]), min_size=m, max_size=m))  # non-negative, 0 included
     use_w = draw(st.booleans())
@@ -159,9 +160,9 @@ def _evaluate(H, case, ctx):
             C(not bad, ("clique-motif", "entry"), lambda: repr(bad[:3]))
     C(outs[0].shape == outs[1].shape and np.array_equal(outs[0], outs[1]), ("clique-motif", "sparse-vs-dense"), "")
     # ---- adjacency tensor
-    for order in (1, 2, 3):
+    for order in (1, 2, 3, 4, 5):
         sel = sel_of(order)
-        if n and sel and n ** (order + 1) <= 4096:
+        if n and sel and n ** (order + 1) <= (4096 if order <= 3 else 20000):
             B, rd = xgi.adjacency_tensor(H, order, normalized=False, index=True)
             if C(B.shape == (n,) * (order + 1) and set(rd.values()) == set(nodes), ("adjacency-tensor", "shape"), repr(B.shape)):
                 pos = {v: k for k, v in rd.items()}
